@@ -304,6 +304,63 @@ class Gen:
             ra2, dec2 = [ra1[0]], [dec1[0] - sgn * 0.5 * L]
         return norm_ra(ra1), np.array(dec1), norm_ra(ra2), np.array(dec2), 'decspan-allsky' if allsky else 'decspan'
 
+    def seamsweep(self, target):
+        """Systematic seam sweep: a first list that goes all round the RA circle at one declination, chunk size
+        chosen (and read back from the real chunks object, adjusted until it matches) so that the slice holding the
+        data has exactly `target` RA chunks; first-list points within eps of RA = 0 on both sides (and of the seam of
+        the rotated frame, RA = 360 - raOffset), second-list partners just across.  Returns None if the chunk count
+        cannot be reached."""
+        rng = self.rng
+        found = None
+        for dec0 in (rng.choice([0.0, 25.0, -40.0, 55.0, -64.0, 64.0, 72.0]), 0.0):
+            c0 = math.cos(math.radians(dec0))
+            cs = c0 * 360.0 / (target - 2.5)
+            if dec0 != 0.0 and abs(dec0) + 0.75 * cs > 80.0:
+                continue
+            iso = [30.0 * k for k in range(12)]
+            other = rng.choice([60.0, 120.0, 180.0, 240.0, 300.0])
+            epss = [1e-9, 1e-6, 1e-3, 0.02, 0.2]
+            for _ in range(80):
+                L = min(30.0, cs / rng.choice([1.2, 2.0, 4.0]))
+                ra1 = list(iso)
+                for e in epss:
+                    w = e * L / c0
+                    ra1 += [w, 360.0 - w, other + w, other - w]
+                ra1 = norm_ra(ra1)
+                dec1 = np.full(len(ra1), dec0)
+                if est_cells(ra1, dec1, cs) > MAXCELLS:
+                    break
+                try:
+                    c = real_chunks(ra1, dec1, cs)
+                    rc, dc = c.get(math.fmod(ra1[1] + c.raOffset, 360.0), dec0)
+                except Exception:
+                    break
+                n = c.nRa[dc]
+                if n == target:
+                    found = (c, dc, L, ra1, dec1)
+                    break
+                # nRa = 3 + floor(cosDecMin * raRange / chunk size): move the chunk size towards the target
+                cs *= (max(n, 3) - 2.5) / (target - 2.5) if n != target and abs(n - target) > 1 else (1.004 if n > target else 0.996)
+            if found:
+                break
+        if not found:
+            return None
+        c, dc, L, ra1, dec1 = found
+        full = float(c.raBounds[dc][c.nRa[dc]] - c.raBounds[dc][0]) > 359.0
+        seams = [0.0, (360.0 - c.raOffset) % 360.0]
+        ra2, dec2 = [], []
+        for seam in seams:
+            for e in epss:
+                for side in (-1, 1):
+                    d = L * rng.choice([0.3, 0.7, 0.95, 0.999])
+                    off = ra_offset_for(dec0, d)
+                    if off is None:
+                        continue
+                    # partner of the first-list point at seam + side*e*L/c0: on the other side of the seam
+                    ra2.append(seam + side * e * L / c0 - side * off)
+                    dec2.append(dec0)
+        return norm_ra(ra1), dec1, norm_ra(ra2), np.array(dec2), L, cs, ('seamsweep' if full else 'seamsweep-open')
+
     def polecap(self, L, cs):
         """A few points, one of them close to the north pole: the declination grid is clamped at +90."""
         rng = self.rng
@@ -509,6 +566,17 @@ def make_calls(ctx):
                 calls.append({'set': sid, 'tag': tag + ('+perm' if pm else ''), 'ra1': ra1, 'dec1': dec1, 'ra2': ra2, 'dec2': dec2,
                               'L': L, 'cs': cs, 'k': k, 'perm': pm})
             sid -= 1
+    # seam sweep: every RA chunk count of the slice holding the data (nRa >= 3 by construction of the grid)
+    for target in range(3, 61 if ctx.quick else 401):
+        got = g.seamsweep(target)
+        if got is None:
+            continue
+        ra1, dec1, ra2, dec2, L, cs, tag = got
+        perm = (rng.sample(range(len(ra1)), len(ra1)), rng.sample(range(len(ra2)), len(ra2)))
+        for k, pm in ((0, None), (0, perm), (1, None)):
+            calls.append({'set': sid, 'tag': tag + ('+perm' if pm else ''), 'ra1': ra1, 'dec1': dec1, 'ra2': ra2, 'dec2': dec2,
+                          'L': L, 'cs': cs, 'k': k, 'perm': pm, 'nra': target})
+        sid -= 1
     for s in range(nsets):
         drv = drivers[s % len(drivers)]
         L = LENGTHS[(s // len(drivers) + s) % len(LENGTHS)] if rng.random() < 0.7 else min(30.0, rng.choice(LENGTHS) * rng.uniform(0.5, 1.5))
@@ -1013,6 +1081,10 @@ def run(ctx):
         'greedy replay: gcirc is replaced by the rank table of the problem (all points in one chunk cell)',
         'hash replay: lattice cases with margin * 360/ring <= 80 deg only (a flat margin >= 90 deg has no counterpart on the sphere)',
         'calls whose chunk grid would exceed %d cells are not made (the real chunks object allocates every cell)' % MAXCELLS,
+        'the hash design model is exact integer arithmetic: it cannot show floating-point rounding of the cell boundaries '
+        '(e.g. a last RA boundary of 359.99999999999994); that is covered on the real code by the seam sweep, which realises '
+        'every RA chunk count 3..60 (quick) / 3..400 (thorough) of an all-round slice (read back from the real chunks object) '
+        'with pairs just across RA = 0; chunk counts 1 (polar slice) and 2 (never produced by chunks.__init__) are not swept',
         'calls with maxmatch > 0 are recorded only when the oracle finds <= %d candidate pairs (one machine step per pair)' % MAXGREEDY]
     # ---- spec level + spec -> code
     replay_greedy(ctx, 'MC_SphereMatch_quick.cfg' if ctx.quick else 'MC_SphereMatch_cases_thorough.cfg')
